@@ -82,6 +82,25 @@ ROOTS = [
 ]
 
 
+# games with a fixed move list (played into the record with `hist`): situations random play rarely reaches
+SCRIPTED = [
+    ("4k3/7p/8/6P1/8/8/8/4K3 b - - 0 1", ["h7h5", "g5h6"]),                    # en passant on the h-file, both ways
+    ("4k3/8/8/8/6p1/8/7P/4K3 w - - 0 1", ["h2h4", "g4h3"]),
+    ("4k3/p7/8/1P6/8/8/8/4K3 b - - 0 1", ["a7a5", "b5a6"]),                    # and on the a-file
+    ("4k3/8/8/8/1p6/8/P7/4K3 w - - 0 1", ["a2a4", "b4a3"]),
+    ("4k3/8/8/6Pp/8/8/8/4K3 w - h6 0 1", ["e1d1", "e8d8"]),                    # imported with an h-file en-passant square
+    ("4k2r/6P1/8/8/8/8/8/4K3 w k - 0 1", ["g7h8n", "e8d8", "h8g6"]),           # promotion capturing a rook on its corner
+    ("r3k3/1P6/8/8/8/8/8/4K3 w q - 0 1", ["b7a8b", "e8d8"]),
+    ("4k3/8/8/8/8/8/1p6/R3K3 b Q - 0 1", ["b2a1q", "e1e2"]),
+    ("4k3/8/8/8/8/8/6p1/4K2R b K - 0 1", ["g2h1r", "e1e2"]),
+]
+# two long shuffles: exported move numbers beyond 127, games near the interface's length limit
+LONG = [
+    ("4k3/8/p1p1p1p1/PpPpPpPp/1P1P1P1P/8/8/4K3 w - - 0 1", ["e1d1", "e8d8", "d1e1", "d8e8"], 396),
+    ("r3k2r/8/8/8/8/8/8/R3K2R w KQkq - 0 1", ["a1b1", "a8b8", "b1a1", "b8a8"], 300),
+]
+
+
 def playout_script(tier, seed):
     rng = Rng(seed)
     ngames = 96 if tier == "quick" else 1600
@@ -96,7 +115,20 @@ def playout_script(tier, seed):
             if rng.chance(1, 6):
                 lines.append("pp")
             if rng.chance(1, 8):
-                lines += ["show", "pgn"]
+                lines += ["show", "pgn", "imp"]
+        lines += ["show", "pgn", "imp"]
+        blocks.append(lines)
+    for si, (root, moves) in enumerate(SCRIPTED):
+        lines = ["# s%d" % si, "new " + root, "obs", "gend", "dump", "imp"]
+        for m in moves:
+            lines += ["hist " + m, "obs", "gend", "dump", "pp", "imp", "show", "pgn"]
+        blocks.append(lines)
+    for li, (root, cyc, n) in enumerate(LONG):
+        lines = ["# l%d" % li, "new " + root, "obs", "gend", "dump"]
+        for k in range(n):
+            lines += ["hist " + cyc[k % len(cyc)], "obs", "gend", "dump"]
+            if k % 16 == 15 or k > n - 6:
+                lines.append("imp")
         lines += ["show", "pgn"]
         blocks.append(lines)
     return blocks
@@ -114,7 +146,7 @@ def parse_kv(line):
 
 
 class Ply:
-    __slots__ = ("move", "obs", "gend", "dump", "pp", "show", "pgn", "raw")
+    __slots__ = ("move", "obs", "gend", "dump", "pp", "show", "pgn", "raw", "imp")
 
     def __init__(self):
         self.move = None
@@ -124,6 +156,7 @@ class Ply:
         self.pp = None
         self.show = None
         self.pgn = None
+        self.imp = None
         self.raw = []
 
 
@@ -141,6 +174,10 @@ def parse_game(lines):
             cur = Ply()
             cur.move = ln[5:]
             plies.append(cur)
+        elif tag == "hist":
+            cur = Ply()
+            cur.move = "@hist"        # the move text is taken from the script (parse_game_with_script)
+            plies.append(cur)
         if cur is None:
             continue
         cur.raw.append(ln)
@@ -156,6 +193,8 @@ def parse_game(lines):
             cur.show = ln[5:]
         elif tag == "pgn":
             cur.pgn = ln[4:]
+        elif tag == "imp":
+            cur.imp = ln
     return plies
 
 
@@ -198,6 +237,13 @@ class PlayoutRun:
         self.impl_raw = cached_run("playout-impl", HARNESS, self.blocks, key)
         self.model_raw = cached_run("playout-model", DRIVER, self.blocks, key)
         self.impl = {gid: parse_game(lines) for gid, lines in self.impl_raw.items()}
+        for b in self.blocks:
+            hist = [l[5:] for l in b if l.startswith("hist ")]
+            k = 0
+            for p in self.impl.get(b[0][2:], []):
+                if p.move == "@hist":
+                    p.move = hist[k] if k < len(hist) else "none"
+                    k += 1
         # spec pass over the implementation's own positions
         sblocks = []
         for gid, plies in self.impl.items():
